@@ -21,8 +21,13 @@ def jobs_for(programs, nrand, npct, seed, opts_list):
     return jobs
 
 
-def run_and_judge(ctx, jobs, own_prefixes, nontrivial_fn, known_key_fn=None):
+def run_and_judge(ctx, jobs, own_prefixes, nontrivial_fn, known_key_fn=None, searches=()):
     results = gwrun.run_many(jobs)
+    nsearch_runs = nsearch_done = 0
+    for out in gwrun.run_searches(list(searches)):
+        results += out["results"]
+        nsearch_runs += out["runs"]
+        nsearch_done += int(out["exhaustive"])
     distinct = gwrun.dedupe(results)
     herr = [r for r in distinct if "harness_error" in r]
     if herr:
@@ -46,7 +51,8 @@ def run_and_judge(ctx, jobs, own_prefixes, nontrivial_fn, known_key_fn=None):
         ctx.violation(f"{vd}: program={json.dumps(r['program'])[:300]} chooser={r['chooser']} opts={r['opts']}",
                       {"program": r["program"], "chooser": r["chooser"], "opts": r["opts"], "decisions": r["decisions"],
                        "verdict": vd, "events": r["events"]}, key=key)
-    return {"runs": len(results), "distinct": len(distinct), "nontrivial": nontrivial, "hist": hist,
+    return {"runs": len(jobs) + nsearch_runs, "bounded_search_runs": nsearch_runs, "bounded_searches_finished": nsearch_done,
+            "bounded_searches": len(list(searches)), "distinct": len(distinct), "nontrivial": nontrivial, "hist": hist,
             "other_property_rejections": others, "budget_exhausted_runs": len(budget),
             "sample": {"program": distinct[0]["program"], "events": distinct[0]["events"][:16]} if distinct else None}
 
